@@ -273,6 +273,13 @@ func isRecordHdrField(v ssa.Value, fld string) bool {
 		return typeNameOf(x.X.Type()) == "RecordHdr" && fieldNameOf(x.X.Type(), x.Field) == fld
 	case *ssa.Convert:
 		return isRecordHdrField(x.X, fld)
+	case *ssa.BinOp:
+		// the record type with the critical bit masked out, kept in a local instead of in place
+		if fld == "Type" && (x.Op == token.AND_NOT || x.Op == token.AND) {
+			if _, isK := ana.ConstInt(x.Y); isK {
+				return isRecordHdrField(x.X, fld)
+			}
+		}
 	}
 	return false
 }
